@@ -1,7 +1,7 @@
 #!/bin/bash
 # Stranger's check of the Coq development: no admitted proofs, no declared axioms, no switched-off kernel checks.
 cd "$(dirname "$0")/../coq"
-bad=$(grep -rnE '\b(Admitted|admit|Axiom|Axioms|Parameter|Parameters|Conjecture|Admit Obligations|Unset Guard Checking|Unset Positivity Checking|Unset Universe Checking|bypass_check|type-in-type|impredicative-set)\b' --include='*.v' lib model thm prop | grep -v '(\*.*\*)' )
-hyp=$(awk 'FNR==1{depth=0} /^[[:space:]]*Section /{depth++} /^[[:space:]]*End /{if(depth>0)depth--} /^[[:space:]]*(Variable|Variables|Hypothesis|Hypotheses|Context)[[:space:](]/{if(depth==0)print FILENAME":"FNR": "$0}' $(find lib model thm prop -name '*.v'))
+bad=$(grep -rnE '\b(Admitted|admit|Axiom|Axioms|Parameter|Parameters|Conjecture|Admit Obligations|Unset Guard Checking|Unset Positivity Checking|Unset Universe Checking|bypass_check|type-in-type|impredicative-set)\b' --include='*.v' lib model thm prop link | grep -v '(\*.*\*)' )
+hyp=$(awk 'FNR==1{depth=0} /^[[:space:]]*Section /{depth++} /^[[:space:]]*End /{if(depth>0)depth--} /^[[:space:]]*(Variable|Variables|Hypothesis|Hypotheses|Context)[[:space:](]/{if(depth==0)print FILENAME":"FNR": "$0}' $(find lib model thm prop link -name '*.v'))
 if [ -n "$bad$hyp" ]; then echo "LINT FAILED"; echo "$bad"; echo "$hyp"; exit 1; fi
-echo "lint ok: $(find lib model thm prop -name '*.v' | wc -l) files, $(cat $(find prop -name '*.v') | grep -cE '^\s*(Theorem|Example|Corollary)') property statements"
+echo "lint ok: $(find lib model thm prop link -name '*.v' | wc -l) files, $(cat $(find prop -name '*.v') | grep -cE '^\s*(Theorem|Example|Corollary)') property statements"
